@@ -52,6 +52,9 @@ func c12Menu() []c12Req {
 		{Name: "variables", Text: `query V($s: String = "d", $b: Boolean = true){echo(s:$s, b:$b) a @include(if:$b){id}}`, Op: "V", Vars: map[string]interface{}{"s": "w"}},
 		{Name: "skip-include", Text: `{a @skip(if:false){id kid @include(if:true){id}} i @include(if:true) s @skip(if:true)}`},
 		{Name: "mutation", Text: `mutation M{set(s:"v") a{id}}`, Op: "M"},
+		// a field the reflection structs have nothing for: the lazy binding fails (and must fail again, not block, the next time)
+		{Name: "unbound-field", Text: `{a{ghost id} b{ghost}}`, Abstract: true},
+		{Name: "unbound-field-in-list", Text: `{as{id ghost} ghost}`, Abstract: true},
 	}
 }
 
@@ -128,15 +131,28 @@ func runC12(c *core.Ctx) {
 		if cfg.Strat == world.FS {
 			g = g0.FSView(s)
 		}
-		// baseline: each request alone on a fresh cold root
+		// baseline: each request alone on a fresh cold root - as the only thread of the scheduler, so that a request
+		// that blocks itself (a mutex left locked on some path) is a deadlock observation and not a hung worker
 		alone := make([]string, len(sc.reqs))
+		selfBlocked := false
 		for i, rq := range sc.reqs {
 			root, run, err := world.BuildRoot(cfg, g)
 			if err != nil {
 				panic(core.EngineError{Msg: err.Error()})
 			}
-			o := world.Observe(root, run, rq.Text, rq.Op, rq.Vars)
+			var o *world.Obs
+			rq := rq
+			res := sched.Run(&core.Chooser{}, false, func(*sched.Sched) { o = world.Observe(root, run, rq.Text, rq.Op, rq.Vars) })
+			if res.Deadlock {
+				c.Outcome("deadlock")
+				c.Violation("deadlock", map[string]string{"config": sc.cfg.Name, "alone": "true"}, map[string]interface{}{"scenario": sc.cfg.Name + " | " + rq.Name + " alone", "request": rq.Text, "diff": "the request blocks itself: it waits for a mutex that nobody will release"})
+				selfBlocked = true
+				break
+			}
 			alone[i] = obsKey(o)
+		}
+		if selfBlocked {
+			continue
 		}
 		names := make([]string, len(sc.reqs))
 		for i, r := range sc.reqs {
